@@ -308,6 +308,15 @@ class Interp:
             return h(e, ins)
         if p in _MOVE:
             return self._move(e, ins)
+        if not any(is_obj(a) and has_z3(a) for a in ins):
+            # no handler, but every operand is a known number (object arrays of exact rationals): evaluate the real
+            # primitive on the float values, as the real run does (e.g. ``lu`` of an identity matrix)
+            st["concretised"] = st.get("concretised", 0) + 1
+            cins = [jnp.asarray(to_numeric(a, e.invars[i].aval.dtype)) if is_obj(a) else jnp.asarray(a) for i, a in enumerate(ins)]
+            r = e.primitive.bind(*cins, **prm)
+            if e.primitive.multiple_results:
+                return [_fold_out(x) for x in r]
+            return _fold_out(r)
         raise NotEncodable(f"primitive {p}")
 
     # ------------------------------------------------------------------ calls / control
@@ -969,6 +978,36 @@ class Interp:
                 acc = sc.add(acc, sc.mul(c, xf[j]))
             out[i] = acc
         return out.reshape(off.shape)
+
+    def p_custom_linear_solve(self, e, ins):
+        """lax.custom_linear_solve (what jnp.linalg.solve becomes under jvp/vjp): x with matvec(x) = b.  Encoded only when
+        every operator constant (matrix, LU factors, pivots) is concrete: then b -> x is a concrete linear map, taken
+        from the primitive's own Jacobian."""
+        cl = e.params["const_lengths"]
+        nconst = sum(int(getattr(cl, f)) for f in ("matvec", "vecmat", "solve", "transpose_solve"))
+        if len(ins) - nconst != 1 or len(e.outvars) != 1:
+            raise NotEncodable("custom_linear_solve with a pytree right-hand side")
+        if any(is_obj(a) and has_z3(a) for a in ins[:nconst]):
+            raise NotEncodable("custom_linear_solve with a symbolic operator")
+        consts = [jnp.asarray(to_numeric(a, e.invars[i].aval.dtype) if is_obj(a) else a) for i, a in enumerate(ins[:nconst])]
+        x = lift(ins[-1])
+        dt = e.invars[-1].aval.dtype
+
+        def f(u):
+            return e.primitive.bind(*consts, u, **e.params)[0]
+        z = jnp.zeros(x.shape, dtype=dt)
+        J = np.asarray(jax.jacfwd(f)(z)).reshape(x.size, x.size)
+        out = np.empty(x.size, dtype=object)
+        xf = x.reshape(-1)
+        for i in range(x.size):
+            acc = 0
+            for j in np.nonzero(J[i])[0]:
+                cc = J[i, j].item()
+                if cc == int(cc):
+                    cc = int(cc)
+                acc = sc.add(acc, sc.mul(cc, xf[j]))
+            out[i] = acc
+        return [out.reshape(x.shape)]
 
     def _conv_onehot(self, e, ins):
         """convolution of a large symbolic lhs with a concrete kernel of few taps, without the dense Jacobian: for each
